@@ -180,6 +180,9 @@ class DIMSEServiceProvider:
         self.cancel_req: dict[int, C_CANCEL] = {}
         self.message: DIMSEMessage | None = None
         self.msg_queue: "queue.Queue[_QueueItem]" = queue.Queue()
+        # Serialises the P-DATA primitives of a message, N-EVENT-REPORT requests
+        #   are served (and answered) in their own thread
+        self._send_lock = threading.Lock()
 
     @property
     def assoc(self) -> "Association":
@@ -342,5 +345,6 @@ class DIMSEServiceProvider:
 
         # Split the full messages into P-DATA chunks,
         #   each below the max_pdu size
-        for pdata in dimse_msg.encode_msg(context_id, self.maximum_pdu_size):
-            self.dul.send_pdu(pdata)
+        with self._send_lock:
+            for pdata in dimse_msg.encode_msg(context_id, self.maximum_pdu_size):
+                self.dul.send_pdu(pdata)
